@@ -532,34 +532,7 @@ def check_stack(ctx) -> None:
         ctx.ok("C03.stack", gs, 'odict["_contexts"] = []', "pickled state carries an empty stack")
     else:
         ctx.bad("C03.stack", gs, gs.node, "the pickled state no longer resets the context stack")
-    # __enter__ pushes a *new* HistoryManager; __exit__ pops from the end and always replays
-    en = prog.func("cobra.core.model", "Model.__enter__")
-    pushes = [n for n in walk_local(en.node) if isinstance(n, ast.Call) and isinstance(n.func, ast.Attribute) and n.func.attr == "append" and n.args and isinstance(n.args[0], ast.Call) and norm(n.args[0].func) == "HistoryManager"]
-    if pushes:
-        ctx.ok("C03.stack", en, enclosing_stmt(pushes[0]), "a fresh HistoryManager is pushed")
-    else:
-        ctx.bad("C03.stack", en, en.node, "__enter__ does not push a fresh HistoryManager onto the stack")
-    ex = prog.func("cobra.core.model", "Model.__exit__")
-    g = ctx.flow.cfg(ex)
-    pops = [n for n in walk_local(ex.node) if isinstance(n, ast.Call) and isinstance(n.func, ast.Attribute) and n.func.attr == "pop" and norm(n.func.value).endswith("_contexts")]
-    resets = [n for n in walk_local(ex.node) if isinstance(n, ast.Call) and isinstance(n.func, ast.Attribute) and n.func.attr == "reset"]
-    if not pops or any(p.args and not (isinstance(p.args[0], ast.UnaryOp) and norm(p.args[0]) == "-1") for p in pops):
-        ctx.bad("C03.stack", ex, ex.node, "__exit__ does not pop the innermost (last) context")
-    elif not resets:
-        ctx.bad("C03.stack", ex, ex.node, "__exit__ does not replay the popped history")
-    else:
-        rn = set()
-        for r in resets:
-            rn |= set(g.node_containing(r))
-        w = g.reaches_without([g.exit], lambda n: n in rn, edge_ok=no_exc)
-        if w is not None:
-            ctx.bad("C03.stack", ex, enclosing_stmt(resets[0]), "__exit__ can return without replaying the history", path=describe_path(w))
-        else:
-            ctx.ok("C03.stack", ex, enclosing_stmt(resets[0]), "pop from the end, then unconditional replay")
-        rets = [n for n in walk_local(ex.node) if isinstance(n, ast.Return) and n.value is not None and not (isinstance(n.value, ast.Constant) and not n.value.value)]
-        if rets:
-            ctx.bad("C03.stack", ex, rets[0], "__exit__ may return a truthy value and swallow the exception that ended the block")
-    ctx.isolated = check_isolation(ctx, ex, g, resets)
+    ctx.isolated = _check_enter_exit_semantics(ctx)
     _check_history_semantics(ctx)
     # resettable: registers the raw function with the OLD value, before calling the setter
     rt = prog.func("cobra.util.context", "resettable.wrapper")
@@ -579,46 +552,115 @@ def check_stack(ctx) -> None:
         ctx.bad("C03.stack", rt, rt.node, "resettable no longer registers the undecorated setter applied to the value read before the change")
 
 
-def check_isolation(ctx, ex: FuncInfo, g: CFG, resets: List[ast.Call]) -> bool:
-    """__exit__ replays the popped history under a scratch HistoryManager that is pushed before the
-    replay and popped again on every exit, so entries recorded *by undo callables* are discarded."""
-    pushes = [
-        n for n in walk_local(ex.node)
-        if isinstance(n, ast.Call) and isinstance(n.func, ast.Attribute) and n.func.attr == "append"
-        and norm(n.func.value).endswith("_contexts") and n.args and isinstance(n.args[0], ast.Call) and norm(n.args[0].func) == "HistoryManager"
-    ]
-    pops = [
-        n for n in walk_local(ex.node)
-        if isinstance(n, ast.Call) and isinstance(n.func, ast.Attribute) and n.func.attr == "pop" and norm(n.func.value).endswith("_contexts")
-    ]
-    if not pushes or not resets:
-        ctx.note("C03.stack: __exit__ does not isolate the replay; undo callables must be context-inert")
-        return False
-    push_nodes = set()
-    for p in pushes:
-        push_nodes |= set(g.node_containing(p))
-    reset_nodes = set()
-    for r in resets:
-        reset_nodes |= set(g.node_containing(r))
-    # the push dominates the replay ...
-    if g.reaches_without(list(reset_nodes), lambda n: n in push_nodes) is not None:
-        ctx.bad("C03.stack", ex, enclosing_stmt(pushes[0]), "the scratch context is not pushed on every path before the history is replayed")
-        return False
-    # ... and after the replay every exit (normal or raising) passes a pop of the scratch context
-    later_pops = set()
-    for p in pops:
-        for n in g.node_containing(p):
-            later_pops.add(n)
-    # pops that come after the push
-    after_push = g.reach(list(push_nodes))
-    later_pops = {n for n in later_pops if n in after_push}
-    esc = g.escapes(list(reset_nodes), lambda n: n in later_pops, [g.exit, g.rexit])
-    # also the exceptional edge leaving the replay itself
-    if esc is not None:
-        ctx.bad("C03.stack", ex, enclosing_stmt(pushes[0]), "the scratch context pushed for the replay is not popped on every exit", path=describe_path(esc))
-        return False
-    ctx.ok("C03.stack", ex, enclosing_stmt(pushes[0]), "replay runs under a scratch context that is discarded on every exit: undo callables cannot record into an enclosing context")
-    return True
+def _check_enter_exit_semantics(ctx) -> bool:
+    """Model.__enter__ / Model.__exit__ evaluated by the analyser's interpreter over a stand-in model: entering pushes
+    one fresh, empty history on top; leaving removes exactly the innermost history, replays it, does not swallow an
+    exception, and (isolation) whatever undo callables record while they are replayed ends up neither in the enclosing
+    context nor as a stray context on the stack - on the normal and on the raising exit. Returns whether the replay
+    is isolated. No shape of the code is prescribed."""
+    from ..interp import Interp
+    from ..absint import Unknown as _U, EvalRaise as _ER
+
+    prog = ctx.prog
+    en = prog.func("cobra.core.model", "Model.__enter__")
+    ex = prog.func("cobra.core.model", "Model.__exit__")
+
+    class _S:
+        pass
+
+    class _HM(_S):
+        def __init__(self, name="fresh"):
+            self._history = []
+            self.name = name
+
+        def __call__(self, op):
+            self._history.append(op)
+
+        def size(self):
+            return len(self._history)
+
+        def reset(self):
+            while self._history:
+                self._history.pop()()
+
+    class _Entry(_S):
+        def __init__(self, name, log, model, records=False, raises=False):
+            self.name, self.log, self.model, self.records, self.raises = name, log, model, records, raises
+
+        def __call__(self):
+            self.log.append(self.name)
+            if self.records and self.model._contexts:
+                self.model._contexts[-1](_Entry("recorded by " + self.name, self.log, self.model))
+            if self.raises:
+                raise ValueError(self.name)
+
+    class _M(_S):
+        def __init__(self, contexts):
+            self._contexts = contexts
+
+    def run(fn, m, args):
+        it = Interp(prog, (_S,), [], {"cobra.util.context.HistoryManager": lambda it_, ev, c, a, k: _HM(), "cobra.util.HistoryManager": lambda it_, ev, c, a, k: _HM()})
+        it.missing_attr_raises = True
+        try:
+            return ("value", it.call(fn, args, {}, selfobj=m))
+        except _ER as exc:
+            return ("raise", exc.exc_type)
+        except _U as exc:
+            raise AnalysisError(f"C03.stack: {fn.short} cannot be evaluated: {exc}")
+
+    # ---- __enter__
+    outer = _HM("outer")
+    outer(lambda: None)
+    for start in ([], [outer]):
+        m = _M(list(start))
+        got = run(en, m, [])
+        new = m._contexts[len(start):]
+        if got[0] == "value" and m._contexts[: len(start)] == start and len(new) == 1 and isinstance(new[0], _HM) and new[0] is not outer and not new[0]._history and got[1] is m:
+            ctx.ok("C03.stack", en, f"enter/{len(start)}", f"entering with {len(start)} open context(s) pushes one fresh, empty history on top and returns the model (evaluated)")
+        else:
+            ctx.bad("C03.stack", en, en.node, f"__enter__ with {len(start)} open context(s) does not push exactly one fresh empty HistoryManager on top of the stack and return the model (stack afterwards: {[getattr(c, 'name', c) for c in m._contexts]}, result {got})")
+    # a model whose stack is missing altogether (unpickled by an old version): tolerated either way, not prescribed
+
+    # ---- __exit__
+    isolated = True
+    for raising, block_failed in ((False, False), (True, False), (False, True)):
+        for depth in (1, 2):
+            log: List[str] = []
+            outer, inner = _HM("outer"), _HM("inner")
+            m = _M([outer, inner] if depth == 2 else [inner])
+            keep = _Entry("outer entry", log, m)
+            outer(keep)
+            inner(_Entry("first", log, m))
+            inner(_Entry("second", log, m, records=True, raises=raising))
+            inner(_Entry("third", log, m, records=True))
+            got = run(ex, m, ["<exception type>", "<exception>", "<traceback>"] if block_failed else [None, None, None])
+            label = f"{'an undo callable raises' if raising else ('the block ended by an exception' if block_failed else 'normal exit')}, {depth} open context(s)"
+            want_log = ["third", "second"] if raising else ["third", "second", "first"]
+            replayed = [x for x in log if not x.startswith("recorded by")]
+            if replayed[: len(want_log)] != want_log or "outer entry" in log:
+                ctx.bad("C03.stack", ex, ex.node, f"__exit__ ({label}) replays {replayed} instead of the innermost history {want_log} last-in-first-out")
+                continue
+            if raising and got[0] != "raise":
+                ctx.bad("C03.stack", ex, ex.node, f"__exit__ swallows the exception of a failing undo callable ({label})")
+                continue
+            if not raising and (got[0] != "value" or got[1]):
+                ctx.bad("C03.stack", ex, ex.node, f"__exit__ {'raises ' + str(got[1]) if got[0] == 'raise' else 'returns a truthy value and swallows the exception that ended the block'} ({label})")
+                continue
+            want_stack = [outer] if depth == 2 else []
+            if inner in m._contexts or m._contexts[: len(want_stack)] != want_stack:
+                ctx.bad("C03.stack", ex, ex.node, f"__exit__ does not remove exactly the innermost context from the stack ({label}: stack afterwards {[getattr(c, 'name', c) for c in m._contexts]})")
+                continue
+            stray = m._contexts[len(want_stack):]
+            leaked = outer._history != [keep]
+            if stray:
+                ctx.bad("C03.stack", ex, ex.node, f"the scratch context pushed for the replay is not popped on every exit ({label}: {len(stray)} stray context(s) stay on the stack, the model believes it is still inside a `with` block)")
+                isolated = False
+            elif leaked:
+                isolated = False
+                ctx.note(f"C03.stack: __exit__ does not isolate the replay ({label}: entries recorded by undo callables land in the enclosing context); undo callables must be context-inert")
+            else:
+                ctx.ok("C03.stack", ex, f"exit/{label}", f"{label}: innermost history popped and replayed last-in-first-out, entries recorded meanwhile discarded, stack back to the enclosing depth (evaluated)")
+    return isolated
 
 
 # ---------------------------------------------------------------------------------- registrations
